@@ -168,6 +168,24 @@ func genC01(t *rapid.T) C01Case {
 		c.N = rapid.IntRange(0, 5).Draw(t, "fn")
 		for i := 0; i < c.N; i++ {
 			c.Idx = append(c.Idx, len(a.Argv))
+			if spec.Mode == ModeBundling && rapid.IntRange(0, 2).Draw(t, "fbundle") == 0 {
+				// repeated letter in one bundle: -www counts three occurrences
+				var single string
+				for _, k := range fo.Keys() {
+					if len([]rune(k)) == 1 {
+						single = k
+					}
+				}
+				rep := rapid.IntRange(1, 3).Draw(t, "frep")
+				if single != "" && i+rep <= c.N {
+					for r := 1; r < rep; r++ {
+						c.Idx = append(c.Idx, len(a.Argv)) // one hit per letter, all on this token
+					}
+					a.Push("focus", "-"+strings.Repeat(single, rep))
+					i += rep - 1
+					continue
+				}
+			}
 			a.Push("focus", dash(spellKey(t, a.Cur(), fo)))
 			if rapid.Bool().Draw(t, "between") {
 				a.Step()
